@@ -107,6 +107,17 @@ def run(ctx: Any, prog: Program) -> None:
                   func='<module>', text=f'ESCAPES_INV[{ch!r}]')
 
     # ---- T2 ------------------------------------------------------------------------------------
+    # A whole-string rewrite applied to text that is *already escaped* cannot tell an escape sequence from the tail of an
+    # escaped backslash: `\\` + `n` (a literal backslash followed by n) contains the two characters `\n` as well.  Any such
+    # post-pass whose search text contains the escape character is a definite defect, whatever the rest of the function does.
+    et0 = tk.func('escape_text')
+    escaped_names = {t.id for n in ast.walk(et0) if isinstance(n, ast.Assign) and isinstance(n.value, ast.Call) and isinstance(n.value.func, ast.Attribute) and n.value.func.attr == 'sub'
+                     and any(dotted(a) == '_escape_matcher' for a in n.value.args) for t in n.targets if isinstance(t, ast.Name)}
+    for c in ast.walk(et0):
+        if isinstance(c, ast.Call) and isinstance(c.func, ast.Attribute) and c.func.attr in ('replace', 'translate') and isinstance(c.func.value, ast.Name) and c.func.value.id in escaped_names \
+                and c.args and isinstance(c.args[0], ast.Constant) and isinstance(c.args[0].value, str) and '\\' in c.args[0].value:
+            ctx.check('C02.T2', False, tk, c, f'`{ast.unparse(c)}` rewrites the already escaped text: the search text {c.args[0].value!r} also occurs where an escaped backslash is followed by '
+                      f'{c.args[0].value[1:]!r} (`\\\\{c.args[0].value[1:]}`), so a literal backslash + {c.args[0].value[1:]!r} in the input is corrupted', func='escape_text', text='no rewrite of escaped text')
     rx1 = fold.global_('ESCAPE_RE')
     rxm = fold.global_('ESCAPE_MULTILINE_RE')
     if not isinstance(rx1, Regex) or not isinstance(rxm, Regex):
@@ -333,6 +344,7 @@ def run(ctx: Any, prog: Program) -> None:
 
 
 MUTANTS = [
+    {'id': 'multiline_by_replace', 'file': 'tokenizer.py', 'find': "    return (ESCAPE_MULTILINE_RE if multiline else ESCAPE_RE).sub(_escape_matcher, text)", 'replace': "    escaped = ESCAPE_RE.sub(_escape_matcher, text)\n    if multiline:\n        escaped = escaped.replace('\\\\n', '\\n')\n    return escaped", 'expect': 'C02.T2'},
     {'id': 'inv_wrong_symbol', 'file': 'tokenizer.py', 'find': "ESCAPES_INV = {char: f'\\\\{sym}'", 'replace': "ESCAPES_INV = {char: f'\\\\{char}'", 'expect': 'C02.T1'},
     {'id': 'multiline_leaves_cr_raw', 'file': 'tokenizer.py', 'find': "if c not in '?/\\n'", 'replace': "if c not in '?/\\n\\r'", 'expect': 'C02.T3'},
     {'id': 'backslash_left_raw', 'file': 'tokenizer.py', 'find': "if c not in '?/'\n", 'replace': "if c not in '?/\\\\'\n", 'expect': 'C02.T3'},
